@@ -234,6 +234,10 @@ func (self *AofFile) Open() error {
 			if err == nil {
 				err = self.WriteHeader()
 			}
+		} else if tornLen := (self.size - 12) % 64; tornLen != 0 {
+			// the last record was cut short by a crash: drop it, records appended behind it would be misaligned
+			self.size -= tornLen
+			err = self.file.Truncate(int64(self.size))
 		} else {
 			err = nil
 		}
